@@ -171,11 +171,23 @@ func (a *FA) dominatedByEdge(b *ssa.BasicBlock, s int) map[int]bool {
 }
 
 // PathConds returns the oriented conditions of all branch edges that dominate block b.
+// trivialCond: a comparison of two constants (`var err error … if err != nil` left over after inlining): says nothing.
+func trivialCond(c *Expr) bool {
+	if c == nil || c.Op != "bin" || len(c.Args) != 2 {
+		return false
+	}
+	k := func(e *Expr) bool { return e.Op == "const" && e.Name == "nil" } // (a zero cell may be written by a closure)
+	return k(c.Args[0]) && k(c.Args[1])
+}
+
 func (a *FA) PathConds(b *ssa.BasicBlock) []*Expr {
 	var out []*Expr
 	for _, i := range a.ifs {
 		pair := a.edgeDom[i]
 		c := a.X.E(i.Cond)
+		if trivialCond(c) {
+			continue
+		}
 		if pair[0][b.Index] {
 			out = append(out, c)
 		}
